@@ -29,11 +29,15 @@ LAYOUTS = {
     'keyname-then-signing': (('@nocert:keyname', None, 'signing'), ('idpA', 'signing')),
     'signing-then-subjectname': (('idpA', 'signing'), ('@nocert:subjectname', None, 'signing')),
     'keyvalue-useless-then-signing': (('@nocert:keyvalue', None, None), ('idpA', 'signing')),
+    # ... and one whose X509Certificate element is there but empty
+    'emptycert-then-signing': (('@nocert:emptycert', None, 'signing'), ('idpA', 'signing')),
+    'signing-then-emptycert-useless': (('idpA', 'signing'), ('@nocert:emptycert', None, None)),
 }
 NOCERT = {
     'keyname': '<ds:KeyName>idp-signing-2031</ds:KeyName>',
     'subjectname': '<ds:X509Data><ds:X509SubjectName>CN=vp-idpA</ds:X509SubjectName></ds:X509Data>',
     'keyvalue': None,      # filled from the mallory key below: a bare RSA key value
+    'emptycert': '<ds:X509Data><ds:X509Certificate/></ds:X509Data>',
 }
 AA_ROLE = ('<md:AttributeAuthorityDescriptor protocolSupportEnumeration="urn:oasis:names:tc:SAML:2.0:protocol">%s'
            '<md:AttributeService Binding="urn:oasis:names:tc:SAML:2.0:bindings:SOAP" Location="https://idpa.example/aa"/>'
@@ -239,8 +243,54 @@ def allowed(cell, only):
     return False
 
 
+ROTATIONS = ('key-replaced', 'key-relabelled-encryption', 'issuer-removed', 'second-key-withdrawn')
+
+
+def evaluate_rotation(case):
+    """One long-lived SP: a genuine response of A is accepted, then A's metadata source is loaded again under the same
+    key with other content (roll-over), then messages signed with the retired key arrive: the store no longer holds
+    that certificate as a signing certificate of A, so none of them authenticates A (embedded certificates only where
+    the metadata now has no signing key for A at all and the option allows them)."""
+    import os
+    how, only, what, ki = case
+    env.Clock.set(env.BASE)
+    d = os.path.join(TMP[0], 'rot-%d-%s-%s-%s-%s' % (os.getpid(), how, only, what, ki))
+    os.makedirs(d, exist_ok=True)
+    before = {'second-key-withdrawn': (('idpA2', 'signing'), ('idpA', 'signing'))}.get(how, (('idpA', 'signing'),))
+    after = {'key-replaced': (('idpA2', 'signing'),), 'key-relabelled-encryption': (('idpA', 'encryption'), ('idpA2', 'signing')),
+             'issuer-removed': None, 'second-key-withdrawn': (('idpA2', 'signing'),)}[how]
+    md_b = world.idp_md(IDP_B, keys=(('idpB', 'signing'),), sso=(('https://idpb.example/sso', world.BINDING_HTTP_REDIRECT),), slo=())
+    top = {} if only is None else {'only_use_keys_in_metadata': only}
+    sp = world.make_sp(d, [world.idp_md(IDP_A, keys=before), md_b], top=top, want_response_signed=False)
+    path = world.write_md(d, world.idp_md(IDP_A, keys=before))
+    kw = dict(sign_resp='idpA') if what == 'response' else dict(sign_ass='idpA')
+    first = oracle.accept_response(sp, forge.build(env.BASE, **kw))
+    if not first['accept']:
+        return case, 'PRIMING-REJECTED:%s' % first.get('exc'), False
+    assert path in sp.metadata.metadata
+    with open(path, 'w', encoding='utf-8') as f:
+        f.write(world.idp_md(IDP_A, keys=after) if after is not None else world.idp_md('urn:vp:other-idp', keys=(('idpA2', 'signing'),)))
+    sp.metadata.load('local', path)
+    spec = keyinfo_spec(ki, 'idpA')
+    if what == 'response':
+        kw = dict(sign_resp='idpA', resp_keyinfo=spec, resp=dict(rid='R2'))
+    else:
+        kw = dict(sign_ass='idpA', ass_keyinfo=spec, assertions=[dict(aid='A2')])
+    obs = oracle.accept_response(sp, forge.build(env.BASE, **kw))
+    # allowed only: the metadata holds no signing key for A any more, the option is off and the certificate is embedded
+    ok = (how == 'issuer-removed' and only is False and ki in ('x509-actual', 'x509-idpA'))
+    return case, None, bool(obs['accept'] and not ok)
+
+
 def run(ctx):
     TMP[0] = ctx.tmp
+    rot = [(h, o, w, ki) for h in ROTATIONS for o in ONLY for w in ('response', 'assertion') for ki in ('none', 'x509-actual')]
+    for case, problem, bad in ctx.pmap(evaluate_rotation, rot, chunksize=2):
+        if problem:
+            ctx.note('rotation %s: %s' % (case, problem))
+        if bad:
+            ctx.violation({'kind': 'retired-key-still-authenticates', 'rotation': case[0], 'only_use_keys_in_metadata': case[1],
+                           'signed': case[2], 'keyinfo': case[3]}, {})
     cs = cells(ctx.thorough)
     res = ctx.pmap(evaluate, cs)
     ctx.recheck(evaluate, cs, res, n=24)
